@@ -3,7 +3,8 @@
 (* C17 -- the file logger of logger/logfile.                               *)
 (*                                                                         *)
 (* A logger owns one output file under <home>/logs.  The directory is      *)
-(* modelled as `files` (relative path |-> bytes) and `dirs`; names and     *)
+(* modelled as `files` (relative path |-> bytes), `dirs` and `links`       *)
+(* (symbolic links and where they really lead); names and                  *)
 (* contents are byte tuples, so the specification can take file names      *)
 (* apart (retention) and cut windows out of contents (Read).               *)
 (*                                                                         *)
@@ -39,6 +40,9 @@ VARIABLES now,       \* virtual clock [d, ms]
           conf,      \* [level, iv, keep, rot, id, oname]
           files,     \* relative path (bytes) |-> content (bytes), regular files under logs/
           dirs,      \* set of relative paths of directories under logs/
+          links,     \* relative path of a symbolic link under logs/ |-> [to, file, data]: where it really
+                     \* leads (stack of segments from HomeMark, ".." segments first if beside <home>;
+                     \* <<>> = nowhere), whether that is a regular file, and the bytes of that file
           cur,       \* name the logger's output points at, or Closed
           lastDay,   \* day the output file was chosen for
           lastRot,   \* rotation flag the output file was chosen under
@@ -55,7 +59,7 @@ VARIABLES now,       \* virtual clock [d, ms]
           deleted,   \* everything retention ever removed: [n, keep, must, may, on]
           rd         \* the last Read: [nil, inside, len, before, text, content] or NoRead
 
-vars == <<now, conf, files, dirs, cur, lastDay, lastRot, retainAt, recent, phase, bleft,
+vars == <<now, conf, files, dirs, links, cur, lastDay, lastRot, retainAt, recent, phase, bleft,
           acc, wrote, gone, fresh, supp, deleted, rd>>
 
 Closed  == <<0>>                       \* not a legal file name
@@ -207,7 +211,7 @@ WroteOf(n) == IF n \in DOMAIN wrote THEN wrote[n] ELSE <<>>
 (* --------------------------------- Init --------------------------------- *)
 Init == /\ now = [d |-> 0, ms |-> 0]
         /\ conf = [level |-> 2, iv |-> 10, keep |-> 7, rot |-> TRUE, id |-> <<>>, oname |-> <<>>]
-        /\ files = EmptyFn /\ dirs = {} /\ cur = Closed /\ lastDay = 0 /\ lastRot = TRUE
+        /\ files = EmptyFn /\ dirs = {} /\ links = EmptyFn /\ cur = Closed /\ lastDay = 0 /\ lastRot = TRUE
         /\ retainAt = [d |-> 0, ms |-> 0] /\ recent = EmptyFn /\ phase = "new" /\ bleft = 0
         /\ acc = 0 /\ wrote = EmptyFn /\ gone = {} /\ fresh = FALSE /\ supp = NoSupp
         /\ deleted = {} /\ rd = NoRead
@@ -217,18 +221,25 @@ Init == /\ now = [d |-> 0, ms |-> 0]
 Advance(t) == /\ phase # "gate" /\ TLe(now, t)
               /\ now' = t
               /\ fresh' = (fresh /\ t.d = now.d)
-              /\ UNCHANGED <<conf, files, dirs, cur, lastDay, lastRot, retainAt, recent, phase, bleft,
+              /\ UNCHANGED <<conf, files, dirs, links, cur, lastDay, lastRot, retainAt, recent, phase, bleft,
                              acc, wrote, gone, supp, deleted, rd>>
 
-\* somebody else creates a file / a directory under logs/
-ExternalFile(n, data) == /\ phase # "gate" /\ n \notin DOMAIN files /\ n \notin dirs /\ n # Closed
+\* somebody else creates a file / a directory / a symbolic link under logs/
+ExternalFile(n, data) == /\ phase # "gate" /\ n \notin DOMAIN files /\ n \notin dirs /\ n \notin DOMAIN links /\ n # Closed
                          /\ files' = files @@ (n :> data)
-                         /\ UNCHANGED <<now, conf, dirs, cur, lastDay, lastRot, retainAt, recent, phase, bleft,
+                         /\ UNCHANGED <<now, conf, dirs, links, cur, lastDay, lastRot, retainAt, recent, phase, bleft,
                                         acc, wrote, gone, fresh, supp, deleted, rd>>
-ExternalDir(n) == /\ phase # "gate" /\ n \notin DOMAIN files
+ExternalDir(n) == /\ phase # "gate" /\ n \notin DOMAIN files /\ n \notin DOMAIN links
                   /\ dirs' = dirs \cup {n}
-                  /\ UNCHANGED <<now, conf, files, cur, lastDay, lastRot, retainAt, recent, phase, bleft,
+                  /\ UNCHANGED <<now, conf, files, links, cur, lastDay, lastRot, retainAt, recent, phase, bleft,
                                  acc, wrote, gone, fresh, supp, deleted, rd>>
+\* lk = [to, file, data]: the link leads to `to`; if that is a regular file, `data` are its bytes.
+\* What a link leads to never changes afterwards (the targets are not log files).
+ExternalLink(n, lk) == /\ phase # "gate" /\ n \notin DOMAIN files /\ n \notin dirs /\ n \notin DOMAIN links /\ n # Closed
+                       /\ (lk.file \/ lk.data = <<>>)
+                       /\ links' = links @@ (n :> lk)
+                       /\ UNCHANGED <<now, conf, files, dirs, cur, lastDay, lastRot, retainAt, recent, phase, bleft,
+                                      acc, wrote, gone, fresh, supp, deleted, rd>>
 
 (* ------------------------------ the logger ------------------------------ *)
 \* construction: defaults (rotation on, 7 days, 10 s), the given id / name / level;
@@ -241,7 +252,7 @@ Open(id, oname, level, banner) ==
          /\ conf' = c /\ cur' = n
          /\ files' = Append1(files, n, banner)
   /\ lastDay' = now.d /\ lastRot' = TRUE /\ retainAt' = now /\ phase' = "run" /\ fresh' = TRUE
-  /\ UNCHANGED <<now, dirs, recent, bleft, acc, wrote, gone, supp, deleted, rd>>
+  /\ UNCHANGED <<now, dirs, links, recent, bleft, acc, wrote, gone, supp, deleted, rd>>
 
 \* settings change (level / interval / keep-days / rotation); takes effect at once,
 \* the output file follows at the next cycle
@@ -249,7 +260,7 @@ Configure(level, iv, keep, rot) ==
   /\ phase = "run"
   /\ conf' = [conf EXCEPT !.level = level, !.iv = iv, !.keep = keep, !.rot = rot]
   /\ fresh' = (fresh /\ rot = conf.rot)
-  /\ UNCHANGED <<now, files, dirs, cur, lastDay, lastRot, retainAt, recent, phase, bleft,
+  /\ UNCHANGED <<now, files, dirs, links, cur, lastDay, lastRot, retainAt, recent, phase, bleft,
                  acc, wrote, gone, supp, deleted, rd>>
 
 \* a call below the configured level leaves no trace
@@ -262,7 +273,7 @@ LogSuppress(kind, pid, s) ==
   /\ LET id == IdOf(kind, pid, s) IN
        /\ MaySuppress(kind, id)
        /\ supp' = [t |-> now, last |-> recent[id], iv |-> conf.iv]
-  /\ UNCHANGED <<now, conf, files, dirs, cur, lastDay, lastRot, retainAt, recent, phase, bleft,
+  /\ UNCHANGED <<now, conf, files, dirs, links, cur, lastDay, lastRot, retainAt, recent, phase, bleft,
                  acc, wrote, gone, fresh, deleted, rd>>
 
 \* otherwise the line is appended whole to the current file
@@ -273,14 +284,14 @@ LogEmit(kind, pid, s, stamp, k) ==
   /\ recent' = IF Cached(kind) THEN Put(recent, IdOf(kind, pid, s), now) ELSE recent
   /\ acc' = acc + 1
   /\ wrote' = Put(wrote, cur, WroteOf(cur) \o <<acc + 1>>)
-  /\ UNCHANGED <<now, conf, dirs, cur, lastDay, lastRot, retainAt, phase, bleft, gone, fresh, supp, deleted, rd>>
+  /\ UNCHANGED <<now, conf, dirs, links, cur, lastDay, lastRot, retainAt, phase, bleft, gone, fresh, supp, deleted, rd>>
 
 \* the as-is design only: output points at a closed file, the accepted line vanishes
 LogLose(kind, pid, s) ==
   /\ Design = "asis" /\ phase = "gate" /\ Gate(kind) /\ cur = Closed
   /\ recent' = IF Cached(kind) THEN Put(recent, IdOf(kind, pid, s), now) ELSE recent
   /\ acc' = acc + 1
-  /\ UNCHANGED <<now, conf, files, dirs, cur, lastDay, lastRot, retainAt, phase, bleft, wrote, gone, fresh, supp, deleted, rd>>
+  /\ UNCHANGED <<now, conf, files, dirs, links, cur, lastDay, lastRot, retainAt, phase, bleft, wrote, gone, fresh, supp, deleted, rd>>
 
 (* retention: it runs when more than RetainEveryMs have passed since retainAt (it
    may run earlier -- the period is not part of the property); when it runs, and
@@ -318,7 +329,7 @@ CycleA(mode, banner, extra, ran) ==
                     \/ /\ mode = "close" /\ banner = <<>>
                        /\ files' = f1 /\ cur' = Closed /\ bleft' = 0
   /\ phase' = "gate"
-  /\ UNCHANGED <<now, conf, dirs, recent, acc, fresh, supp, rd>>
+  /\ UNCHANGED <<now, conf, dirs, links, recent, acc, fresh, supp, rd>>
 
 \* one banner line on its own
 BannerLine(b) ==
@@ -326,7 +337,7 @@ BannerLine(b) ==
   /\ IsBannerLine(4 - bleft, b, conf.oname, now)
   /\ files' = Append1(files, cur, b)
   /\ bleft' = bleft - 1
-  /\ UNCHANGED <<now, conf, dirs, cur, lastDay, lastRot, retainAt, recent, phase,
+  /\ UNCHANGED <<now, conf, dirs, links, cur, lastDay, lastRot, retainAt, recent, phase,
                  acc, wrote, gone, fresh, supp, deleted, rd>>
 
 \* second half: (re)open if the output is dangling
@@ -338,14 +349,16 @@ CycleB(banner) ==
             /\ files' = Append1(files, n, banner) /\ cur' = n
      ELSE banner = <<>> /\ UNCHANGED <<files, cur>>
   /\ phase' = "run" /\ fresh' = TRUE
-  /\ UNCHANGED <<now, conf, dirs, lastDay, lastRot, retainAt, recent, bleft, acc, wrote, gone, supp, deleted, rd>>
+  /\ UNCHANGED <<now, conf, dirs, links, lastDay, lastRot, retainAt, recent, bleft, acc, wrote, gone, supp, deleted, rd>>
 
 (* ----------------------------------- Read -------------------------------- *)
-\* lexical resolution of a caller-supplied name joined below <home>/logs : the path
-\* is walked from <<HomeMark, "logs">>; the result is the stack of segments below
-\* logs/, or Escapes when the walk ends anywhere else (what lies above <home> is
-\* unknown, so a walk that leaves <home> never comes back)
-Escapes  == <<<<0>>>>
+(* Where a caller-supplied name joined below <home>/logs leads.  Lexically, as a
+   path join does: the name is walked from <<HomeMark, "logs">>, "." and empty
+   segments vanish, ".." pops; what lies above <home> is unknown, so a walk that
+   leaves <home> is lost for good (the stack <<>>).  Physically: the cleaned path
+   is followed from <home> down, and a symbolic link below logs/ replaces the path
+   so far by where the link really leads (a stack from HomeMark that may begin
+   with ".." segments: beside <home>; <<>>: nowhere).                             *)
 HomeMark == <<0>>
 LogsName == <<108, 111, 103, 115>>
 RECURSIVE SplitAt(_, _, _, _)
@@ -355,56 +368,79 @@ SplitAt(s, i, curseg, out) ==
   ELSE SplitAt(s, i + 1, Append(curseg, s[i]), out)
 RECURSIVE Walk(_, _, _)
 Walk(segs, i, st) ==
-  IF i > Len(segs) THEN st
+  IF st = <<>> \/ i > Len(segs) THEN st
   ELSE LET g == segs[i] IN
        IF g = <<>> \/ g = <<DOT>> THEN Walk(segs, i + 1, st)
        ELSE IF g = <<DOT, DOT>>
-            THEN Walk(segs, i + 1, IF st = <<>> THEN st ELSE SubSeq(st, 1, Len(st) - 1))
+            THEN Walk(segs, i + 1, SubSeq(st, 1, Len(st) - 1))
             ELSE Walk(segs, i + 1, Append(st, g))
 RECURSIVE JoinSegs(_)
 JoinSegs(st) == IF st = <<>> THEN <<>>
                 ELSE IF Len(st) = 1 THEN st[1]
                 ELSE st[1] \o <<SLASH>> \o JoinSegs(Tail(st))
-Resolve(file) == LET st == Walk(SplitAt(file, 1, <<>>, <<>>), 1, <<HomeMark, LogsName>>) IN
-                 IF Len(st) >= 2 /\ st[1] = HomeMark /\ st[2] = LogsName THEN SubSeq(st, 3, Len(st)) ELSE Escapes
-\* the name of a file directly in logs/, as GetLogFiles lists them
+UnderLogs(st) == Len(st) >= 2 /\ st[1] = HomeMark /\ st[2] = LogsName
+Below(st) == JoinSegs(SubSeq(st, 3, Len(st)))       \* path relative to logs/
+RECURSIVE Follow(_, _, _)
+Follow(segs, i, st) ==
+  IF st = <<>> \/ i > Len(segs) THEN st
+  ELSE Bind(Append(st, segs[i]), LAMBDA s2 :
+         IF UnderLogs(s2) /\ Len(s2) >= 3 /\ Below(s2) \in DOMAIN links
+         THEN Follow(segs, i + 1, links[Below(s2)].to)
+         ELSE Follow(segs, i + 1, s2))
+Lexical(file) == Walk(SplitAt(file, 1, <<>>, <<>>), 1, <<HomeMark, LogsName>>)
+Physical(lx)  == Follow(Tail(lx), 1, <<HomeMark>>)
+\* the name of an entry of logs/ itself, as GetLogFiles lists them
 Plain(file) == file # <<>> /\ TopLevel(file) /\ file # <<DOT>> /\ file # <<DOT, DOT>>
 
-\* the reference answer of Read(file, end, len): nil, or the window of at most len
-\* bytes that starts len bytes before `end` (end < 0: the end of the file)
-ReadAnswer(file, end, len) ==
-  LET st == Resolve(file) IN
-  IF file = <<>> \/ len <= 0 \/ st = Escapes THEN [nil |-> TRUE, inside |-> st # Escapes]
-  ELSE LET t == JoinSegs(st) IN
-       IF t \notin DOMAIN files THEN [nil |-> TRUE, inside |-> TRUE]
-       ELSE LET size == Len(files[t]) IN
-            IF end > size THEN [nil |-> TRUE, inside |-> TRUE]
-            ELSE LET e     == IF end < 0 THEN size ELSE end
-                     start == Max(0, e - len)
-                     n     == Min(size - start, len)
-                 IN  [nil |-> FALSE, inside |-> TRUE, target |-> t, size |-> size,
-                      before |-> start, text |-> Slice(files[t], start + 1, n)]
+\* the window of at most len bytes that starts len bytes before `end` (end < 0: the end)
+Window(content, end, len, und) ==
+  LET size == Len(content) IN
+    IF end > size THEN [nil |-> TRUE, inside |-> TRUE, und |-> und]
+    ELSE LET e     == IF end < 0 THEN size ELSE end
+             start == Max(0, e - len)
+             n     == Min(size - start, len)
+         IN  [nil |-> FALSE, inside |-> TRUE, und |-> und, content |-> content, size |-> size,
+              before |-> start, text |-> Slice(content, start + 1, n)]
+
+(* The reference answer of Read(file, end, len): nil, or a window of the file the name
+   leads to.  beyond = the regular files of <home> (and beside it) that are not below
+   logs/, path relative to <home> |-> bytes.
+   - a name that lexically leaves logs/ has no answer (inside = FALSE);
+   - a name that stays in logs/ and meets no symbolic link is answered from `files`;
+   - a name that stays in logs/ lexically but goes through a symbolic link: the statement
+     does not decide whether that is a path of the logs directory (und = TRUE); if it is
+     answered, then from the file it really leads to.                                    *)
+ReadAnswer(file, end, len, beyond) ==
+  Bind(Lexical(file), LAMBDA lx :
+    IF ~ UnderLogs(lx) THEN [nil |-> TRUE, inside |-> FALSE, und |-> FALSE]
+    ELSE Bind(Physical(lx), LAMBDA ph :
+      LET und == ph # lx IN
+      IF file = <<>> \/ len <= 0 THEN [nil |-> TRUE, inside |-> TRUE, und |-> und]
+      ELSE IF UnderLogs(ph) /\ Below(ph) \in DOMAIN files THEN Window(files[Below(ph)], end, len, und)
+      ELSE IF ph # <<>> /\ ~ UnderLogs(ph) /\ JoinSegs(Tail(ph)) \in DOMAIN beyond
+           THEN Window(beyond[JoinSegs(Tail(ph))], end, len, und)
+      ELSE [nil |-> TRUE, inside |-> TRUE, und |-> und]))
 
 (* Read(file, end, len) answered res = [nil] or [nil, before, text].  What is pinned:
-   whether there is an answer at all for a plain name; that a name which is not a
-   plain file name is answered only from the file it lexically resolves to inside
-   logs/ (or not at all).  Where the window lies is judged by ReadHonest alone.
-   Read may log one error line about its own failure (diag = its message). *)
-Read(file, end, len, res, diagStamp, diag) ==
+   whether there is an answer at all for a plain name that is no symbolic link; that
+   any other name is answered only from the file it leads to (or not at all), and a
+   name that lexically leaves logs/ never.  Where the window lies is judged by
+   ReadHonest alone.  Read may log one error line about its own failure (diag). *)
+Read(file, end, len, res, diagStamp, diag, beyond) ==
   /\ phase = "run"
-  /\ LET a == ReadAnswer(file, end, len) IN
-       /\ (Plain(file) => res.nil = a.nil)
+  /\ LET a == ReadAnswer(file, end, len, beyond) IN
+       /\ (Plain(file) /\ ~ a.und => res.nil = a.nil)
        /\ (~ res.nil => ~ a.nil)
        /\ rd' = IF res.nil THEN [nil |-> TRUE, inside |-> a.inside, len |-> len]
                 ELSE [nil |-> FALSE, inside |-> a.inside, len |-> len, before |-> res.before,
-                      text |-> res.text, content |-> files[a.target]]
+                      text |-> res.text, content |-> a.content]
        /\ IF diag = <<>> THEN UNCHANGED <<files, recent, acc, wrote>>
           ELSE /\ res.nil /\ cur # Closed /\ StampOK(diagStamp)
                /\ files' = Append1(files, cur, diagStamp \o Payload("E", <<>>, diag, 1))
                /\ recent' = Put(recent, IdOf("E", <<>>, diag), now)
                /\ acc' = acc + 1
                /\ wrote' = Put(wrote, cur, WroteOf(cur) \o <<acc + 1>>)
-  /\ UNCHANGED <<now, conf, dirs, cur, lastDay, lastRot, retainAt, phase, bleft, gone, fresh, supp, deleted>>
+  /\ UNCHANGED <<now, conf, dirs, links, cur, lastDay, lastRot, retainAt, phase, bleft, gone, fresh, supp, deleted>>
 
 (* ------------------------------- properties ------------------------------ *)
 \* every accepted line is in exactly one place, and each file holds its lines in call order
